@@ -1426,7 +1426,10 @@ class _ChildLessNode(NodeBase):
 
     @property
     def depth(self) -> int:
-        return cast("TagNode", self.parent).depth + 1
+        parent = self.parent
+        if parent is None:
+            return 0
+        return parent.depth + 1
 
     @property
     def document(self) -> Optional[Document]:
